@@ -95,6 +95,16 @@ def _do(F, d, E, sink):
         if d.get("out"):
             E[d["out"]] = b
         return b
+    if op == "cappend":
+        # append to an existing container file: the schema argument is documented as ignored
+        fo = io.BytesIO(_get(E, d["bytes"]))
+        fo.seek(0, 2)
+        sink["stream"] = fo
+        F.writer(fo, _get(E, d["schema"]), _get(E, d["records"]), **dict(d.get("opts", {})))
+        b = fo.getvalue()
+        if d.get("out"):
+            E[d["out"]] = b
+        return b
     if op == "cread":
         data = _get(E, d["bytes"])
         kw = _reader_opts(d)
